@@ -156,7 +156,7 @@ resultBreak:
 				}
 			case valueEmpty:
 			default:
-				result = value
+				result = value.resolve()
 			}
 		}
 	resultContinue:
@@ -214,7 +214,7 @@ func (rt *runtime) cmplEvaluateNodeForInStatement(node *nodeForInStatement) Valu
 					}
 				case valueEmpty:
 				default:
-					enumerateValue = value
+					enumerateValue = value.resolve()
 				}
 			}
 			return true
@@ -279,7 +279,7 @@ resultBreak:
 				}
 			case valueEmpty:
 			default:
-				result = value
+				result = value.resolve()
 			}
 		}
 	resultContinue:
@@ -335,7 +335,7 @@ func (rt *runtime) cmplEvaluateNodeSwitchStatement(node *nodeSwitchStatement) Va
 					}
 				case valueEmpty:
 				default:
-					result = value
+					result = value.resolve()
 				}
 			}
 		}
@@ -408,7 +408,7 @@ resultBreakContinue:
 				}
 			case valueEmpty:
 			default:
-				result = value
+				result = value.resolve()
 			}
 		}
 	}
